@@ -146,6 +146,15 @@ pub fn dispatch(f: &[&str]) -> Result<String, String> {
                 _ => Ok("ERR".into()),
             }
         }
+        // TS <pattern> <u64> : resolve_timestamp
+        "TS" => {
+            let p = unhex(f[1])?;
+            let t: u64 = f[2].parse().map_err(|_| "ts")?;
+            match zerv::version::zerv::utils::timestamp::resolve_timestamp(&p, t) {
+                Ok(v) => Ok(format!("OK {}", hex(&v))),
+                Err(_) => Ok("ERR".into()),
+            }
+        }
         // PEP <s> : PEP440::from_str + Display + fields
         "PEP" => {
             let s = unhex(f[1])?;
